@@ -144,11 +144,24 @@ def _next_Module_START(ast: AST, idx: int | None) -> _NextPrevRet:
     if a := ast.body:
         return a[0].f
 
+    if a := ast.type_ignores:
+        return a[0].f
+
     return None
 
 
 def _next_Module_body(ast: AST, idx: int | None) -> _NextPrevRet:
     if (idx := idx + 1) < len(a := ast.body):
+        return a[idx].f
+
+    if a := ast.type_ignores:
+        return a[0].f
+
+    return None
+
+
+def _next_Module_type_ignores(ast: AST, idx: int | None) -> _NextPrevRet:
+    if (idx := idx + 1) < len(a := ast.type_ignores):
         return a[idx].f
 
     return None
@@ -1836,6 +1849,7 @@ def _next__type_params_type_params(ast: AST, idx: int | None) -> _NextPrevRet:
 NEXT_FUNCS = {
     (Module, None): _next_Module_START,
     (Module, 'body'): _next_Module_body,
+    (Module, 'type_ignores'): _next_Module_type_ignores,
     (Interactive, None): _next_Interactive_START,
     (Interactive, 'body'): _next_Interactive_body,
     (Expression, None): _next_Expression_START,
